@@ -152,7 +152,7 @@ def gen_bad_request(rng):
 def server_case(ctx, rng, idx, mem, deadline):
     valid, data, op = gen_bad_request(rng)
     npieces = rng.choice([1, 1, 2, 3])
-    cuts = hg.random_split(rng, len(data), npieces - 1) if npieces > 1 and len(data) > 1 else ()
+    cuts = tuple(sorted(rng.sample(range(1, len(data)), min(npieces - 1, len(data) - 1)))) if len(data) > 1 else ()
     pieces = hg.cut(data, cuts)
     hang = rng.random() < 0.3
     tag = "j%d-%d" % (ctx.job["index"] if ctx.job else 0, idx)
@@ -271,7 +271,7 @@ def client_case(ctx, rng, idx, deadline):
     from ioflo.aio.http import clienting
     valid, data, op, certainly_bad = gen_bad_response(rng)
     npieces = rng.choice([1, 1, 2, 3])
-    cuts = hg.random_split(rng, len(data), npieces - 1) if npieces > 1 and len(data) > 1 else ()
+    cuts = tuple(sorted(rng.sample(range(1, len(data)), min(npieces - 1, len(data) - 1)))) if len(data) > 1 else ()
     pieces = hg.cut(data, cuts)
     hang = rng.random() < 0.5
     wit = lambda extra=None: jsonable(dict({"delivered": data if len(data) < 2000 else data[:200] + b"...(%d bytes)" % len(data),
@@ -343,3 +343,16 @@ def run(ctx):
     n = ctx.pick(120, 2500)
     jobs = [{"n": n, "budget": ctx.pick(25, 330)} for _ in range(16)]
     ctx.shard(jobs, timeout=ctx.pick(60, 400))
+    total = 16 * n
+    ctx.floor("distinct_nontrivial", total // 2)
+    ctx.floor("transport:loopback", total // 30)
+    ctx.floor("transport:memory", total // 3)
+    ctx.floor("delivered_in_pieces", total // 6)
+    ctx.floor("hangup", total // 10)
+    for k, d in (("bad:closed", 8), ("bad:closed-with-response", 30), ("bad:responded", 12), ("bad:waiting", 40),
+                 ("client:accepted", 10), ("client:errored", 10), ("client:waiting", 15)):
+        ctx.floor(k, total // d)
+    for op in ("flip", "delete", "insert", "truncate", "dup", "startline", "headerline", "chunksize", "chunkend",
+               "length", "random", "bigline", "nocolon", "barelf", "nul"):
+        ctx.floor("op:" + op, total // 60)
+        ctx.floor("cop:" + op, total // 80)
